@@ -58,7 +58,7 @@ Definition compare (s : sstate) (o : sobs) : option Z :=
       (n <? 2)%N || xwithin (tol_var s) (XFin (s_variance s)) (o_var o);
       (n <? 2)%N || std_ok s o;
       (n =? 0)%N || match o_rms o with XFin r => close_sqrt (tol_msq s + 8 * ulp53 * s_msq s) (s_msq s) r | _ => false end;
-      xeq (XFin (nq s)) (o_weight o) ].
+      xwithin (ulp53 * nq s) (XFin (nq s)) (o_weight o) ].   (* float64(Count) rounds above 2^53 *)
 
 (* branch tag: bit 0 = history contains a Combine, bit 1 = a Combine with an empty side,
    bit 2 = some accumulator reached >= 2 values *)
